@@ -60,7 +60,7 @@ TEXTS["C06"] = {
             "discharged for local pairs and open records by finalInterRecord_none_of_local / _of_open), a Group request between two hubs is booked like any other (C06_interhub_request_with_group_recorded). Block level (Proofs/TimeoutList.lean): what is stored under every timeout height after the bookkeeping of a whole block follows from the per-transaction actions alone, in whatever order the two Go maps are iterated "
             "(setTimeoutList_at): every request the block books for d is on that list afterwards, once, behind what was there (C06_block_books_requests), an id taken off is gone (C06_block_unbooks), a request and its receipt in one block net out (C06_block_request_and_receipt_net_out), other heights keep their lists (C06_block_other_heights_untouched). The timeout step of block h moves every listed id to BEGIN_ROLLBACK and touches no unlisted id "
             "(C06_fires_at_deadline, C06_not_listed_untouched). The end-to-end statement over histories is checked by model correspondence and the protocol monitor, one-to-one and (a quarter of the traffic) one-to-many: a group is listed as timed out only "
-            "in its deadline block and only if it has neither failed nor finished. Defects repaired by fix: commits (097cb155, 1d4711ef, the timeout-list quirks, ec8a63d5, 56c2160a, 37545315). Over whole histories from a fresh chain (Props/C06b.lean, on the closed-finality invariant of C04 and the exact list-count lemmas of Proofs/ExecListedE): a request whose receipt was accepted never times out in any later block, a final record is on no list of any height for ever, an open record is listed only under the deadline its own record names, and contract transactions leave every other list alone (C06_answered_request_never_times_out, C06_final_is_unlisted_forever, C06_open_listed_only_under_its_deadline, C06_transactions_leave_the_lists_alone). Not proved, decided by correspondence + monitor only: that an unanswered request IS listed at exactly H+T in every history (needs a typing invariant of the timeout keys).",
+            "in its deadline block and only if it has neither failed nor finished. Defects repaired by fix: commits (097cb155, 1d4711ef, the timeout-list quirks, ec8a63d5, 56c2160a, 37545315). Over whole histories from a fresh chain (Props/C06b.lean, on the closed-finality invariant of C04 and the exact list-count lemmas of Proofs/ExecListedE): a request whose receipt was accepted never times out in any later block, a final record is on no list of any height for ever, an open record is listed only under the deadline its own record names, and contract transactions leave every other list alone (C06_answered_request_never_times_out, C06_final_is_unlisted_forever, C06_open_listed_only_under_its_deadline, C06_transactions_leave_the_lists_alone). The positive half over histories: the block that accepts a request with 0<T<maxU64-H leaves it DUE (open, on the list of H+T exactly once, all stored lists well-formed: C06_block_opens_due), every block that accepts no receipt for it keeps it due (C06_block_keeps_due, C06_history_keeps_due) and the block of height H+T moves it to BEGIN_ROLLBACK (C06_block_fires_due, C06_unanswered_request_times_out, C06_request_unanswered_until_H_plus_T_times_out); assumed there: NoAbort, no DeleteInterchain, GlobalsPresent for the deadline block's timeout walk, no receipt transaction for the id in the accepting block. That the piers are told once is decided by the monitor and the router verdict.",
     "note": TB,
     "technique": "Lean 4 theorems over the executable timeout-bookkeeping model + differential correspondence + protocol monitor",
 }
